@@ -14,6 +14,7 @@ including failed ones.  (I) and (W) are structural:
              public flag setter; a `&mut` borrow of an option field counts as a write (mem::replace save/restore around a
              fallible call), and the library never calls the user's flag setter itself
   SHARED     nested / out-of-order serialisation borrows the same configuration (no second pool)
+  POOLSITES  ... an assertion on a popped buffer fails on the non-empty outcome only (every pooled buffer is empty)
 """
 from ..lib import *
 from ..core import short_loc, op_place, const_int
